@@ -250,6 +250,18 @@ Theorem C17_live_migrate : forall tbl cat dcs dc a b req code n v fuel,
 Proof. exact make_request_migrate. Qed.
 Print Assumptions C17_live_migrate.
 
+(* redirected twice (the data centre the request is repeated at redirects it again): handled again, not returned *)
+Theorem C17_live_migrate_twice : forall tbl cat dcs dc a b c req code n code' m v fuel,
+  table_ok tbl = true -> In pm_entry tbl -> in_int n = true -> in_int m = true ->
+  dc_lookup n dcs = Some b -> dc_lookup m dcs = Some c ->
+  dc a req = RError code (s_phone_migrate_ ++ dec n) ->
+  dc b req = RError code' (s_phone_migrate_ ++ dec m) ->
+  dc c req = RValue v ->
+  make_request (S (S (S fuel))) tbl cat dcs dc a req []
+  = {| c_result := CValue v; c_addr := c; c_writes := [(a, req); (b, req); (c, req)] |}.
+Proof. exact make_request_migrate_twice. Qed.
+Print Assumptions C17_live_migrate_twice.
+
 Theorem C17_live_unconfigured : forall tbl cat dcs dc a req code n fuel,
   table_ok tbl = true -> In pm_entry tbl -> in_int n = true ->
   dc_lookup n dcs = None ->
